@@ -194,7 +194,7 @@ theorem ringRanges_bounds (cap head len : Nat) (hc : 0 < cap) (hl : len ≤ cap)
   simp only [hne, if_false]
   split <;> simp <;> omega
 
-/-- **C06_vecdeque_ring** (full strength; repaired by 6655f7c): for EVERY capacity — also above CAP_GUARD —, every head and
+/-- **C06_vecdeque_ring** (full strength; repaired by 26a941a): for EVERY capacity — also above CAP_GUARD —, every head and
     every length up to the capacity the slots shown are the slots of the logical sequence (element `i` from slot
     `(head + i) % cap`), cut after the first LEN_GUARD elements (the documented guard: a truncation, never other slots). -/
 theorem C06_vecdeque_ring (cap head len : Nat) (hc : 0 < cap) (hl : len ≤ cap) :
@@ -360,7 +360,7 @@ theorem constMask_id (w t : Nat) (hw : 0 < w) (hw8 : w ≤ 8) (ht : t < 256 ^ w)
     rw [this]; exact ht
   · exact Nat.lt_of_lt_of_le ht (pow256_le w hw8)
 
-/-- **C06_enum_discr_key** (full strength; repaired by c9ce198): the key under which the type parser files a variant of an
+/-- **C06_enum_discr_key** (full strength; repaired by b7942d3): the key under which the type parser files a variant of an
     enum with an UNSIGNED tag equals the discriminant number the decoder reads from memory (`try_as_number` of the tag) — for
     every tag width up to 8 bytes and EVERY value, top bit set or not (`#[repr(u8)] … B = 255`: key 255, memory 255;
     a u64 tag ≥ 2^63: both sides the same negative i64). -/
@@ -382,7 +382,7 @@ example : discrKey 1 255 = 255 := by decide
 /-- a constant of a SIGNED tag keeps gimli's sign extension: `-1i8` in `DW_FORM_data1` -/
 example : intConstData none 1 255 = -1 := by decide
 
-/-- **C06_cenum_const_key** (full strength; repaired by c9ce198): every enumerator constant of a C-like enum with an unsigned
+/-- **C06_cenum_const_key** (full strength; repaired by b7942d3): every enumerator constant of a C-like enum with an unsigned
     underlying type gets a key, and it is the number `try_as_number` makes of the value in memory — also above i64::MAX
     (`#[repr(u64)] … Q = 9223372036854775808`). -/
 theorem C06_cenum_const_key (raw : Nat) (k : IK) (h : raw < 2 ^ 64) (hk : NotWide k) :
@@ -402,7 +402,7 @@ theorem C06_cenum_const_key_value (raw : Nat) (h : raw < 2 ^ 63) : constKey raw 
 example : constKey 9223372036854775808 = some (-9223372036854775808) := by decide
 example : (Scalar.num .u64 9223372036854775808).asNumber = some (-9223372036854775808) := by decide
 
-/-- **C06_enum_select** (full strength; repaired by 1f84510): every integer discriminant the decoder can read — 128-bit tags
+/-- **C06_enum_select** (full strength; repaired by e8d5673): every integer discriminant the decoder can read — 128-bit tags
     included — selects by its numeric value. -/
 theorem C06_enum_select (k : IK) (v : Int) (lo : -(2 ^ 63 : Int) ≤ v) (hi : v < 2 ^ 63) :
     (Scalar.num k v).asNumber = some v := by
@@ -433,7 +433,7 @@ theorem C06_enum_wide_key (t : Nat) (h : t < 2 ^ 64) :
 /-- `Option<u128>`: `None` = block 0, `Some` = block 1; memory tag 1 selects key 1 -/
 example : wideConst true (leBytes 16 1) = some 1 ∧ (Scalar.num .u128 1).asNumber = some 1 := by decide
 
-/-- **C06_enum_single_variant** (repaired by 4796f22): an enum without discriminant member that has one variant shows it,
+/-- **C06_enum_single_variant** (repaired by 7066f0e): an enum without discriminant member that has one variant shows it,
     whatever is (not) read as discriminant -/
 theorem C06_enum_single_variant (e : Option Int × Member) (dv : Option Int) : chooseVariant none [e] dv = some e.2 := by
   simp [chooseVariant]
